@@ -6,7 +6,9 @@ interpreted by generic `async fn`s in the Rust harness on a real `sc62015_core::
 with a list of budgets, then with a huge budget until everything finished.  A small space is enumerated
 completely; Hypothesis explores beyond it (up to 4 tasks, 6 steps, late spawns, huge values, zero budgets,
 non-zero start clock); "long" cases have chains of thousands of steps; "dur" cases sweep the sleep duration
-(every value 0..200, every power-of-two neighbourhood); "multi" cases keep 2-3 drivers alive on one thread and
+(every value 0..200, every power-of-two neighbourhood); "defer" cases (and a share of the Hypothesis / multi / long
+cases) construct a sleep future in one place and first await it in another (`let nap = sleep_cycles(d); ...;
+nap.await`, or built by the host before spawn) or construct and drop one; "multi" cases keep 2-3 drivers alive on one thread and
 interleave their run_for calls (plus block_on interludes whose futures sleep and emit events), each driver must
 behave as it does alone.  Verdicts: vp_harness/c18_sched.py.
 
@@ -43,6 +45,11 @@ RULE = ("scheduler: task sets x budget partitions; complete enumeration of {1-2 
         "duration sweep: every sleep duration 0..200 and 2^k-1,2^k,2^k+1 (k<=16, thorough k<=40) in systematic shapes "
         "(start-clock alignments, budgets cut at the wake-up, two tasks meeting at one cycle, neighbours side by side) "
         "plus boundary-weighted random scripts; "
+        "construction place of a sleep future as a generated dimension (op [d,ev,1,mk]: constructed k resumptions "
+        "before the one that awaits it, or by the host right before spawn / right after the driver was constructed; "
+        "task key gh: constructed and dropped): systematic arm-work-wait shapes x work sequences x budgets x start "
+        "clocks x ticker task, host-built x start clock x late spawn, every duration of the sweep with the stale "
+        "deadline before / at / after the await, random mixes; also 1/3 of the Hypothesis and multi cases; "
         "multi cases: 2-3 such drivers alive on one thread, run_for calls interleaved in a generated order with "
         "block_on interludes (futures that sleep and emit events, in completing or non-completing polls), drivers "
         "created up front or lazily, each compared with itself run alone.  "
@@ -84,6 +91,10 @@ ASSUMPTIONS = [
     "case left in the thread-locals is not an input of the next case",
     "the statement puts no bound on the length of a sleep sequence or on the number of wake-ups served within "
     "one cycle: sleep_cycles(0) must stay in its cycle however long the chain is",
+    "a sleep asks for its wake-up when it is first polled (C18 anchors: 'sleep future records its absolute wake cycle "
+    "on first poll'; Rust futures are inert until polled): the cycle a task 'asked for' is (cycle of the resumption "
+    "that awaits the sleep) + d wherever sleep_cycles(d) was called -- in an earlier resumption, by the host before "
+    "spawn -- and constructing a sleep future without awaiting it asks for nothing",
     "a bare Poll::Pending (no sleep registered) is expected one cycle later, as the maintainers' "
     "pending_without_sleep_advances_by_one test states",
     "CPU: LCD controller and keyboard-matrix internals are compared only through memory/IMEM/FIFO length; perfetto "
@@ -114,6 +125,21 @@ def _assign_events(task_ops: List[List[List[Any]]], se: Optional[List[bool]] = N
         if se and se[i]:
             t["se"] = 100 * (i + 1)
         tasks.append(t)
+    return tasks
+
+
+def _with_mk(tasks: List[Dict[str, Any]], mks: List[List[Any]],
+             ghosts: Optional[List[List[List[int]]]] = None) -> List[Dict[str, Any]]:
+    """Attach construction places (None | k >= 1 | "spawn" | "new", one per op) and dropped sleep futures
+    ([[resumption, d], ...] per task) to tasks made by _assign_events."""
+    for t, ms in zip(tasks, mks):
+        for o, m in zip(t["ops"], ms):
+            if m and o[0] >= 0:
+                del o[2:]
+                o.extend([1, m])
+    for t, g in zip(tasks, ghosts or []):
+        if g:
+            t["gh"] = [list(x) for x in g]
     return tasks
 
 
@@ -277,6 +303,7 @@ def _case_strategy(max_tasks: int = 4, max_steps: int = 6, max_budgets: int = 8)
     step = st.tuples(dur, st.booleans())
     bud = st.one_of(st.sampled_from((0,) + T_B), st.sampled_from(T_B), st.integers(0, 40), big)
     clock = st.one_of(st.just(0), st.just(0), st.none(), st.sampled_from([1, 7, 2 ** 32 + 5, 2 ** 62]))
+    mk = st.sampled_from((None, None, None, 1, 1, 2, 3, 6, "spawn", "new"))
 
     @st.composite
     def cases(draw: Any) -> Dict[str, Any]:
@@ -287,7 +314,14 @@ def _case_strategy(max_tasks: int = 4, max_steps: int = 6, max_budgets: int = 8)
         at = [0] * nt
         if budgets and draw(st.integers(0, 3)) == 0:
             at = [draw(st.integers(0, len(budgets))) if draw(st.booleans()) else 0 for _ in range(nt)]
-        return _mk_case(_assign_events(ops, se, at), budgets, draw(clock))
+        tasks = _assign_events(ops, se, at)
+        # one case in three: some sleep futures are constructed away from their await (or constructed and dropped)
+        if draw(st.integers(0, 2)) == 0:
+            mks = [[draw(mk) for _ in t] for t in ops]
+            ghosts = [draw(st.lists(st.tuples(st.integers(-1, max(len(t) - 1, -1)), st.sampled_from(T_D)),
+                                    min_size=0, max_size=2)) if draw(st.integers(0, 3)) == 0 else [] for t in ops]
+            tasks = _with_mk(tasks, mks, [[list(g) for g in gl] for gl in ghosts])
+        return _mk_case(tasks, budgets, draw(clock))
 
     return cases()
 
@@ -451,6 +485,14 @@ def _long_cases(tier: str, seed: int, n_random: int) -> Iterator[Tuple[str, Dict
                 for budgets in ([], [d], [1, 3 * d]):
                     ops = [[[d + i, 0, rep_n], [1 + i, 1, 1]] for i in range(ntasks)]
                     yield "long:systematic", _mk_case(_assign_events_rep(ops), list(budgets))
+    # a sleep future constructed in the first poll and awaited only after the whole chain
+    for rep_n in reps:
+        for d, da in ((0, 3), (1, 0), (1, 2), (SC.YIELD, 1), (1, rep_n), (1, rep_n + 1)):
+            for budgets in (([], [2]) if rep_n <= 5000 else ([],)):
+                ops = [[[d, 0, rep_n], [da, 1, 1], [2, 1, 1]]]
+                tasks = _assign_events_rep(ops)
+                tasks[0]["ops"][1] = tasks[0]["ops"][1][:2] + [1, rep_n + 7]
+                yield "long:systematic", _mk_case(tasks, list(budgets))
     for k in range(n_random):
         st = Stream(seed, k, 0x10C18)
         ntasks = 1 + st.below(3)
@@ -568,18 +610,116 @@ def _dur_shard(task: Tuple[int, int, str, int, int]) -> Report:
     return rep
 
 
+# ------------------------------------------------------------------------------------------------
+# scheduler: where a sleep future is constructed (arm now, await later; built by the host; built and dropped)
+# ------------------------------------------------------------------------------------------------
+# Every in-tree user writes `sleep_cycles(d).await`, where construction and first poll fall into one resumption.
+# The statement speaks of the cycle a task *asked for*; a sleep asks when it is first polled (anchors: "sleep future
+# records its absolute wake cycle on first poll"), so the place of the constructor call is a free dimension of a
+# task's source text: `let nap = sleep_cycles(d); work().await; nap.await` (arm a timeout, work, wait for it), a
+# future handed to the task by the host, a future that is constructed and never awaited.  The reference scheduler
+# and every verdict are unchanged (they count d from the resumption that awaits), plus one oracle-free comparison
+# with the same script written with ordinary `sleep_cycles(d).await` everywhere (construction-independence).
+
+def _defer_cases(tier: str, seed: int, n_random: int) -> Iterator[Tuple[str, Dict[str, Any]]]:
+    quick = tier == "quick"
+    pal_a = (0, 1, 2, 3, 5, 8)
+    pal_w = (0, 1, 2, 5, SC.YIELD) if quick else (0, 1, 2, 3, 5, SC.YIELD)
+    works: List[Tuple[int, ...]] = []
+    for n in ((1, 2) if quick else (1, 2, 3)):
+        works += list(itertools.product(pal_w, repeat=n))
+    # (A) arm - work - wait inside one task, then one more ordinary sleep; alone / next to a ticker task
+    for da in pal_a:
+        for work in works:
+            for k in range(1, len(work) + 1):
+                ops = [[w, 0] for w in work] + [[da, 1], [2, 1]]
+                mks: List[Any] = [None] * len(work) + [k, None]
+                for n, (budgets, clock0) in enumerate((([], None), ([1], 0), ([2, 3], 7), ([100], 40),
+                                                       ([da + 1], 2 ** 32 + 5))):
+                    yield "defer:arm-work-wait", _mk_case(_with_mk(_assign_events([ops]), [mks]), list(budgets), clock0)
+                    tick = [[1, 0]] * 6
+                    if n % 2:
+                        tasks = _with_mk(_assign_events([tick, ops]), [[], mks])
+                    else:
+                        tasks = _with_mk(_assign_events([ops, tick]), [mks, []])
+                    yield "defer:arm-work-wait", _mk_case(tasks, list(budgets), clock0)
+    # (B) the host constructs the sleep future (right before spawn / right after constructing the driver) and moves
+    # it into the task: first or second sleep of the script, every start clock, spawned before call 0, 1, 2
+    for da in pal_a:
+        for place in ("spawn", "new"):
+            for clock0 in (None, 0, 1, 7, 64, 2 ** 32 + 5):
+                for at in (0, 1, 2):
+                    for first in (True, False):
+                        ops = [[da, 1], [2, 1]] if first else [[3, 0], [da, 1]]
+                        mks = [place, None] if first else [None, place]
+                        tasks = _with_mk(_assign_events([ops, [[4, 0], [4, 0]]], None, [at, 0]), [mks, []])
+                        yield "defer:host-built", _mk_case(tasks, [3, 2, 5][:max(at, 1)], clock0)
+    # (C) the duration sweep: counted from its construction, the deadline would lie ahead of / exactly at / behind
+    # the cycle of the await
+    for n, d in enumerate(dur_values(tier)):
+        for w in (1, d, d + 1):
+            tasks = _with_mk(_assign_events([[[w, 0], [d, 1], [1, 1]]]), [[None, 1, None]])
+            yield "defer:dur", _mk_case(tasks, [] if n % 2 else [d], HOT_CLOCK[n % len(HOT_CLOCK)])
+        clock0 = (1, 7, 63, 64, 65, 4095, 2 ** 16 - 1, 2 ** 32 + 5)[n % 8]
+        tasks = _with_mk(_assign_events([[[d, 1], [1, 1]]]), [["spawn" if n % 2 else "new", None]])
+        yield "defer:dur", _mk_case(tasks, [], clock0)
+    # (D) random mixes
+    hot = HOT_D if quick else HOT_D_THOROUGH
+    for k in range(n_random):
+        st = Stream(seed, k, 0xDEFC18)
+
+        def one_d() -> int:
+            r = st.below(10)
+            if r < 6:
+                return st.choice((0, 0, 1, 1, 2, 3, 5, 8, SC.YIELD))
+            if r < 8:
+                return st.below(41)
+            return st.choice(hot)
+
+        ntasks = 1 + st.below(3)
+        ops = [[[one_d(), 1 if st.chance(1, 3) else 0] for _ in range(1 + st.below(6))] for _ in range(ntasks)]
+        mks = [[st.choice((1, 1, 2, 3, 5, "spawn", "new")) if st.chance(1, 2) else None for _ in t] for t in ops]
+        ghosts = [[[st.below(len(t) + 1) - 1, st.choice(T_D)] for _ in range(1 + st.below(2))] if st.chance(1, 3) else []
+                  for t in ops]
+        flat = [o[0] for t in ops for o in t if o[0] >= 0] or [1]
+        nb = st.below(4)
+        budgets = []
+        for _ in range(nb):
+            b = st.choice(flat)
+            budgets.append(st.choice((1, 2, 3, 5, 100, b, b + 1, 2 * b + 1)))
+        se = [st.chance(1, 6) for _ in range(ntasks)]
+        at = [st.below(nb + 1) if (nb and st.chance(1, 3)) else 0 for _ in range(ntasks)]
+        tasks = _with_mk(_assign_events(ops, se, at), mks, ghosts)
+        yield "defer:random", _mk_case(tasks, budgets, st.choice(HOT_CLOCK))
+
+
+def _defer_shard(task: Tuple[int, int, str, int, int]) -> Report:
+    shard, nshards, tier, seed, n_random = task
+    rep = Report()
+    for n, (fam, case) in enumerate(_defer_cases(tier, seed, n_random)):
+        if n % nshards != shard:
+            continue
+        vs, labels, nt = eval_sched(case)
+        _record(rep, case, vs, labels, nt, 797, (fam,))
+    return rep
+
+
 def eval_sched(case: Dict[str, Any]) -> Tuple[List[Violation], List[str], bool]:
     """Run one scheduler case (plus its single-budget reference and a repeat) and return the verdicts."""
     late = any(t.get("at", 0) > 0 for t in case["tasks"])
-    batch = [case]
+    batch = [case, case]
+    i_ref = i_plain = None
     if not late and case["budgets"]:
         refc = dict(case)
         refc["budgets"] = []
+        i_ref = len(batch)
         batch.append(refc)
-    batch.append(case)
+    if SC.has_construction(case):
+        i_plain = len(batch)
+        batch.append(SC.strip_construction(case))
     obs = _rust_sched(batch)
-    ref = obs[1] if len(batch) == 3 else None
-    return SC.check(case, obs[0], ref=ref, again=obs[-1])
+    return SC.check(case, obs[0], ref=None if i_ref is None else obs[i_ref], again=obs[1],
+                    plain=None if i_plain is None else obs[i_plain])
 
 
 # ------------------------------------------------------------------------------------------------
@@ -627,6 +767,8 @@ def _dispatch(task: Tuple[Any, ...]) -> Report:
             return _long_shard(task[1:])
         if kind == "dur":
             return _dur_shard(task[1:])
+        if kind == "defer":
+            return _defer_shard(task[1:])
         return _cpu_shard(task[1:])
     except _Hang as exc:
         # The shard's partial results are dropped; run() turns this into exit 2 unless another shard produced a
@@ -657,6 +799,8 @@ def run(ctx: Ctx) -> Report:
         tasks.append(("multi", i, base, ctx.pick(600, 4000)))
     for i in range(16):
         tasks.append(("dur", i, 16, ctx.tier, base, ctx.pick(2400, 16000)))
+    for i in range(16):
+        tasks.append(("defer", i, 16, ctx.tier, base, ctx.pick(3000, 24000)))
     for i in range(n_enum):
         tasks.append(("enum", i, n_enum, ctx.tier))
     reports = ctx.pmap(_dispatch, tasks)
@@ -722,6 +866,19 @@ def _sched_candidates(case: Dict[str, Any]) -> Iterator[Dict[str, Any]]:
             c = copy.deepcopy(case)
             c["tasks"][i].pop("se")
             yield c
+        for g in range(len(t.get("gh") or [])):
+            c = copy.deepcopy(case)
+            del c["tasks"][i]["gh"][g]
+            yield c
+        for j, o in enumerate(t["ops"]):
+            if SC.op_mk(o) is not None:
+                c = copy.deepcopy(case)
+                c["tasks"][i]["ops"][j] = list(o[:2])
+                yield c
+                if o[3] not in (1, "spawn"):
+                    c = copy.deepcopy(case)
+                    c["tasks"][i]["ops"][j][3] = 1 if isinstance(o[3], int) else "spawn"
+                    yield c
         if t.get("at", 0):
             c = copy.deepcopy(case)
             c["tasks"][i]["at"] = 0
